@@ -334,8 +334,9 @@ theorem keltnerchannel_one_price_of_laws (s : KeltnerChannel F) (x v : F)
   unfold KeltnerChannel.nextBar KeltnerChannel.next
   try simp only [gen_helper]
   rw [ht, atr_one_price_of_laws s.atr x v hsub hmax]
-  cases h1 : ExponentialMovingAverage.next s.ema x <;>
-    cases h2 : AverageTrueRange.next s.atr x <;> simp [h1, h2]
+  -- (if both paths call the components in the same order the `rw` has already closed the goal)
+  all_goals (cases h1 : ExponentialMovingAverage.next s.ema x <;>
+    cases h2 : AverageTrueRange.next s.atr x <;> simp [h1, h2])
 
 /-- the one-price theorems extend to every bar whose high, low and close are `x` (open and volume
     arbitrary) through field independence; stated once, for TrueRange -/
